@@ -144,6 +144,15 @@ CLAIMED = {
         "accessors. The inverse law over all segment values is a theorem about `re` and is not claimed.",
         "Trusted: Python re semantics for the checked regex shape.",
         "DESIGN.md 4/C19"),
+    "C20": (
+        "regex-AST analysis (re._parser) of fix_whitespace; CFG placement of sanitiser guards; text taint into string tokens of skeletons",
+        "Decides that each substitution of fix_whitespace matches only whitespace outside groups it puts back in order (so tokens, line "
+        "separation and indentation survive) and that the file ends with one newline; that rst() neutralises a trailing quote, embedded "
+        "triple quotes and a trailing backslash on the value it returns, after its last modification, on every path; that every "
+        "comment-derived hole in every library skeleton sits inside a raw string literal or comment and passes rst/wrap; and that "
+        "textwrap never breaks words. Word preservation, width bound and idempotence over all strings are not claimed.",
+        "Trusted: Python's re and textwrap; pandoc output is treated as opaque text that passes the same guards.",
+        "DESIGN.md 4/C20"),
 }
 
 NOT_APPLICABLE = {
